@@ -635,10 +635,21 @@ class C03Executor(X.UnitsExecutor):
         return super().compare(st, op, a, b, node)
 
 
-EXECUTOR = C03Executor
+MBOX = "sharepoint2text/parsing/extractors/mail/mbox_email_extractor.py"
+
+
+def EXECUTOR(module, reg, uni, **kw):
+    """Executor per module under verification: the mailbox splitter is verified with C16's executor (bytes of symbolic
+    length, re.finditer model) under C16's contract, which C03 shares (message boundaries are part of both properties)."""
+    if module.rel == MBOX:
+        from contracts import c16_exec
+        return c16_exec.MailExecutor(module, reg, uni, **kw)
+    return C03Executor(module, reg, uni, **kw)
 
 
 def contracts(reg):
+    from contracts import c16_exec
+    c16_exec.install(reg)          # finditer / Match model for the mailbox splitter (calls X.install as well)
     X.install(reg)
     install_opaque()
     out = []
@@ -655,6 +666,8 @@ def contracts(reg):
     out.extend(assumed_ppt_parsers())
     install_re(reg)
     out.append(flush_page_contract())
+    from contracts import C16
+    out.append(C16.split_contract())      # one message per non-empty slice between separator lines, in order
     return out
 
 
